@@ -25,6 +25,7 @@ import (
 	"errors"
 	"fmt"
 	"os"
+	"runtime"
 	"strconv"
 	"strings"
 	"sync"
@@ -519,6 +520,31 @@ func main() {
 		}
 	}()
 	sys = newSystem("verifc45")
-	vlib.Loop(handle)
-	_ = sys.Stop(ctx)
+	vlib.Loop(guarded)
+	// bounded shutdown: every result line is out already; a stage actor still blocked in a user callback must not
+	// keep the process (and the check) waiting
+	done := make(chan struct{})
+	go func() { _ = sys.Stop(ctx); close(done) }()
+	select {
+	case <-done:
+	case <-time.After(5 * time.Second):
+	}
+}
+
+// guarded runs one case under a watchdog: a case that neither finishes nor times out by itself within 3 minutes is
+// reported as HANG (with all goroutine stacks on stderr) and the process ends, so the check resumes after it.
+func guarded(line string) string {
+	out := make(chan string, 1)
+	go func() { out <- vlib.Safe(func() string { return handle(line) }) }()
+	select {
+	case r := <-out:
+		return r
+	case <-time.After(3 * time.Minute):
+		buf := make([]byte, 1<<22)
+		n := runtime.Stack(buf, true)
+		fmt.Fprintf(os.Stderr, "%s\nHANG in case: %s\n", buf[:n], line)
+		fmt.Println("HANG")
+		os.Exit(3)
+		return "HANG"
+	}
 }
